@@ -512,7 +512,7 @@ impl Driver for C10 {
     }
     fn units(&self, tier: Tier) -> usize {
         // units 0..EXH are the exhaustive part, the rest random trees and spelling twins
-        tier.pick(400, 4000)
+        tier.pick(400, 20000)
     }
     fn exhaustive(&self, _tier: Tier) -> bool {
         false
